@@ -14,15 +14,15 @@ Definition pipe_defs (E : env) (cls : N) (user : option N) (fmt : N) : list item
 (* an external source yields what it yields now: there is no cache in the specification *)
 Definition src_vals (E : env) (it : item) : outcome (list str) :=
   match i_tr it with TFile d => e_src E d | _ => Ok [] end.
-Fixpoint ideal_items (E : env) (ps : pstate) (r : rule) (its : list item) : pstate * (rule + N) :=
+Fixpoint ideal_items (E : env) (pv : vars) (ps : pstate) (r : rule) (its : list item) : pstate * (rule + N) :=
   match its with
   | [] => (ps, inl r)
   | it :: rest =>
-      let st := item_step ps r it (src_vals E it) in
+      let st := item_step ps pv r it (src_vals E it) in
       let ps1 := is_upd st ps in
       match is_res st with
       | inr e => (ps1, inr e)
-      | inl r' => ideal_items E (note_applied it (is_match st) ps1) r' rest
+      | inl r' => ideal_items E pv (note_applied it (is_match st) ps1) r' rest
       end
   end.
 
@@ -47,9 +47,9 @@ Definition ideal_cond (E : env) (ne : bool) (dets : list (str * list ditem)) (k 
   end.
 
 (* one rule: pipeline built for format lfmt, query finalised for format fmt *)
-Definition ideal_rule (E : env) (cls : N) (user : option N) (lfmt fmt : N) (r : rule)
+Definition ideal_rule (E : env) (cls : N) (user : option N) (opts : list (str * str)) (lfmt fmt : N) (r : rule)
   : pstate * outcome (list str) :=
-  let '(ps, res) := ideal_items E ps0 r (pipe_defs E cls user lfmt) in
+  let '(ps, res) := ideal_items E (init_vars E cls user opts lfmt) ps0 r (pipe_defs E cls user lfmt) in
   match res with
   | inr e => (ps, SigmaErr e)
   | inl r' => (ps, obind (omap (ideal_cond E (e_ne E cls) (r_dets r')) (r_conds r'))
@@ -57,8 +57,8 @@ Definition ideal_rule (E : env) (cls : N) (user : option N) (lfmt fmt : N) (r : 
   end.
 
 (* convert_rule(rule, fmt) *)
-Definition ideal_obs_rule (E : env) (cls : N) (user : option N) (collect : bool) (fmt : N) (r : rule) : obs :=
-  let '(ps, q) := ideal_rule E cls user fmt fmt r in
+Definition ideal_obs_rule (E : env) (cls : N) (user : option N) (collect : bool) (opts : list (str * str)) (fmt : N) (r : rule) : obs :=
+  let '(ps, q) := ideal_rule E cls user opts fmt fmt r in
   match q with
   | SigmaErr e => if collect then {| o_res := Ok []; o_errs := [e]; o_snap := Some ps |}
                   else {| o_res := q; o_errs := []; o_snap := Some ps |}
@@ -67,21 +67,21 @@ Definition ideal_obs_rule (E : env) (cls : N) (user : option N) (collect : bool)
 
 (* convert(collection, fmt): every rule on its own; the bookkeeping left behind is that of the last
    rule that was processed *)
-Fixpoint ideal_rules (E : env) (cls : N) (user : option N) (collect : bool) (fmt : N) (rs : list rule)
+Fixpoint ideal_rules (E : env) (cls : N) (user : option N) (collect : bool) (opts : list (str * str)) (fmt : N) (rs : list rule)
          (acc : list str) (errs : list N) (ps : pstate) : obs :=
   match rs with
   | [] => {| o_res := Ok acc; o_errs := errs; o_snap := Some ps |}
   | r :: rest =>
-      let '(ps1, q) := ideal_rule E cls user fmt fmt r in
+      let '(ps1, q) := ideal_rule E cls user opts fmt fmt r in
       match q with
-      | Ok l => ideal_rules E cls user collect fmt rest (acc ++ l) errs ps1
-      | SigmaErr e => if collect then ideal_rules E cls user collect fmt rest acc (errs ++ [e]) ps1
+      | Ok l => ideal_rules E cls user collect opts fmt rest (acc ++ l) errs ps1
+      | SigmaErr e => if collect then ideal_rules E cls user collect opts fmt rest acc (errs ++ [e]) ps1
                       else {| o_res := SigmaErr e; o_errs := errs; o_snap := Some ps1 |}
       | Crash e => {| o_res := Crash e; o_errs := errs; o_snap := Some ps1 |}
       end
   end.
-Definition ideal_obs_coll (E : env) (cls : N) (user : option N) (collect : bool) (fmt : N) (rs : list rule) : obs :=
-  ideal_rules E cls user collect fmt rs [] [] ps0.
+Definition ideal_obs_coll (E : env) (cls : N) (user : option N) (collect : bool) (opts : list (str * str)) (fmt : N) (rs : list rule) : obs :=
+  ideal_rules E cls user collect opts fmt rs [] [] ps0.
 
 (* ---------- the two aliasing situations in which the implementation leaks today ---------- *)
 (* every item of the backend's pipeline object still points to that object (D18 when violated) *)
@@ -102,7 +102,7 @@ Definition class_has_items (E : env) (fmts : list N) (c : N) : bool :=
   negb (match e_bk E c with [] => true | _ => false end)
   || existsb (fun f => negb (match e_fmt E c f with [] => true | _ => false end)) fmts.
 Definition news (ops : list op) : list (N * option N) :=
-  flat_map (fun o => match o with ONew c u _ => [(c, u)] | _ => [] end) ops.
+  flat_map (fun o => match o with ONew c u _ _ => [(c, u)] | _ => [] end) ops.
 Fixpoint no_sharing_l (E : env) (fmts : list N) (l : list (N * option N)) : bool :=
   match l with
   | [] => true
